@@ -12,7 +12,7 @@ META = dict(
     level="exploration",
     shards={"quick": 8, "thorough": 16},
     watchdog_s={"quick": 900, "thorough": 3600},
-    evaluations_counter="cases",
+    evaluations_counter="executions",
     min={"cases": 1000, "metamorphic_pairs": 1000, "range_checks": 2000},
     anchors=["tensor/qweight.py:quantize_weight", "calibrate.py:absmax_scale",
              "tensor/optimizers/absmax_optimizer.py:AbsmaxOptimizer.optimize",
@@ -167,6 +167,7 @@ def run(ctx):
         desc = dict(dtype=str(wd), qtype=qtn, axis=axis, group_size=gs, shape=list(shape), classes=sorted(set(assign)))
         if not ctx.case(desc):
             continue
+        ctx.count("executions")
         crng = ctx.crng
         xb = fp.plain_bytes(x)
         try:
@@ -241,6 +242,7 @@ def run(ctx):
                 continue
             dq2 = oracles.plain(q2.dequantize())
             ctx.count("metamorphic_pairs")
+            ctx.count("executions")
             if perm is not None:
                 same = fp.plain_bytes(dq2) == fp.plain_bytes(dq.index_select(ax, perm))
             else:
